@@ -7,6 +7,7 @@ import GrinVerif.Model.ChainNrdDup
 import GrinVerif.Model.ChainReport
 import GrinVerif.Model.ChainStatus
 import GrinVerif.Model.ChainOrphans
+import GrinVerif.Model.ChainReset
 /-! Driver glue for the `chain` domain: block tree definitions shared by all subject chains,
 one model `Node` per subject. -/
 namespace GV.Drv.ChainD
@@ -220,6 +221,14 @@ def handle (st : St) (args : List String) (impl : String) : St × Verdict :=
       let l := (sortNat (inputPosToRewind n S (n.heightOf hb))).eraseDups
       (st, cmpModel ("[" ++ ",".intercalate (l.map toString) ++ "]") impl)
     | _, _, _ => (st, .diff "txhashset-model failed to follow the head")
+  | ["resethead", s, b, hd] =>
+    -- `Chain::reset_chain_head(b, rewind_headers)`
+    match getNode st s, idOf b, kv [hd] "hdrs" with
+    | some n, some t, some h =>
+      match resetChainHead p n t (h == "1") with
+      | .ok n' => (followImpl (setNode st s n') s n', cmpDeliver "ok" impl)
+      | .error e => (st, cmpDeliver s!"err:{e}" impl)
+    | _, _, _ => (st, .unknown)
   | ["tail", s] =>
     -- after a compaction: `remove_historical_blocks` deleted every block below the body tail (on
     -- every fork) with its spent-index record; the tail itself is taken from the implementation
